@@ -12,6 +12,8 @@ package props
 //   impl concurrent  ==  impl alone  ==  model alone  ==  model interleaved
 // A race report (exit code 66 / "WARNING: DATA RACE") is a disagreement whose Impl holds the
 // report and whose signature names the racing functions (first eino frame of both stacks).
+// The two call-option families (kinds optshare, toollist: shared Option values with spare
+// capacity, per-run tool lists) are in c09_opts.go.
 
 import (
 	"bytes"
@@ -596,8 +598,9 @@ func runC09(ctx *vh.Ctx) error {
 	// fixed opening: the agents and one object of every kind, then random kinds
 	kinds := []string{"react", "wfstraggler", "optshare", "toollist", "pregel", "dag", "workflow", "chain", "nested", "checkpoint", "host"}
 	// after the opening the two call-option families are drawn twice as often as the others
-	pool := append(append([]string{}, kinds...), "optshare", "toollist")
-	n := ctx.N(96, 1600)
+	pool := append(append([]string{}, kinds...), "optshare", "optshare", "optshare", "toollist", "toollist")
+	nOpt, nTL := 0, 0
+	n := ctx.N(130, 2000)
 	for i := 0; i < n && ctx.TimeLeft(); i++ {
 		kind := kinds[i%len(kinds)]
 		if i >= len(kinds) {
@@ -607,9 +610,11 @@ func runC09(ctx *vh.Ctx) error {
 		if c09IsOptKind(kind) {
 			var c c09Case
 			if kind == "optshare" {
-				c = c09GenOptShare(r)
+				c = c09GenOptShare(r, nOpt)
+				nOpt++
 			} else {
-				c = c09GenToolList(r)
+				c = c09GenToolList(r, nTL)
+				nTL++
 			}
 			if err := c09EvaluateX(ctx, &c); err != nil {
 				return err
